@@ -98,6 +98,18 @@ CHECKS["C02"] = dict(
          "Two-group (InteractingNetworks) variants are decided under C11's check.  Tolerance 6e-5.",
     ref="6/C02")
 
+CHECKS["C04"] = dict(
+    technique="TLA+ Permute action (NetworkSM) + TLC-enumerated graphs x all n! permutations replayed on permuted_copy + TLC trace validation (Val_C04)",
+    text="NetworkSM specifies renumbering as an action Permute(pi); Gen_C04 enumerates every undirected graph up to NU nodes and directed "
+         "graph up to ND nodes with all n! permutations (content-derived affine permutations beyond NP nodes); permuted_copy is replayed, "
+         "must equal Permute(abs, pi), and TLC decides PermAgree for every argument-free public method discovered on the object "
+         "(scalars equal, vectors/matrices renumbered, distributions equal) plus group-taking measures whose node lists are renumbered "
+         "and presented in another order.",
+    note="Eigenvector centralities are withdrawn on directed / disconnected graphs (no unique Perron vector), random-walk betweenness on "
+         "directed graphs.  Spatial / interacting / resistive / recurrence-type networks are renumbered under the C11, C18 and C12 "
+         "checks where their measures are driven; this check drives class Network.",
+    ref="6/C04")
+
 NOT_APPLICABLE = {
     "C20": "memory safety of compiled kernels is a property of concrete addresses, not of abstract state a TLA+ "
            "specification maintains; nothing binds a PlusCal transcription of index arithmetic to the compiled code "
